@@ -2494,7 +2494,29 @@ fn mt_snapshot(sh: &Shared, store: &Store, tid: usize, s: usize, hold: Option<(u
 			if !slept && items.len() >= n {
 				slept = true;
 				sh.st(tid, 8);
-				sh.sleep_checking(ms);
+				// While holding the iterator (one open transaction of this thread) do further
+				// store-level reads on the same thread: nested transactions are explicitly allowed
+				// by Store::enter_tx even while a resize is pending, and the chain does this.
+				for _ in 0..4 {
+					sh.sleep_checking(ms / 4);
+					match store.exists(SPACE_KEYS[s], b"c18-nested-probe") {
+						Ok(_) => sh.count("mt_nested_reads_while_holding_iterator", 1),
+						Err(e) => {
+							sh.fail(fail_from_err("mt", "store.exists(nested)", &e));
+							return false;
+						}
+					}
+					if let Some((k, _)) = items.last() {
+						match store.get_ser::<Val>(SPACE_KEYS[s], k, None) {
+							Ok(_) => sh.count("mt_nested_reads_while_holding_iterator", 1),
+							Err(e) => {
+								sh.fail(fail_from_err("mt", "store.get_ser(nested)", &e));
+								return false;
+							}
+						}
+					}
+					sh.tick(tid);
+				}
 				sh.st(tid, 7);
 			}
 		}
